@@ -179,7 +179,12 @@ def exec_job(job):
              cp=dict(done=False, exc="", copy_same_text=True, copy_same_data=True, data_same_text=True, data_same_data=True, copy_new_id=True,
                      shared_mutables=0, source_unchanged_after_mutating_copy=True, copy_keeps_note=True))
     try:
-        o1 = build(cls, job["text"], kw)
+        if job.get("first") is not None:      # history: an object that held another text is given this one through its line setter
+            o1 = build(cls, job["first"], kw)
+            _ = o1.line
+            o1.line = job["text"]
+        else:
+            o1 = build(cls, job["text"], kw)
         t1, d1 = o1.line, proj.digest(o1)
         e["t1"] = parts_of(cls, t1)
     except Exception as ex:  # noqa
@@ -287,7 +292,20 @@ def gen_jobs(rng, n):
             if mems:
                 ind = rng.choice([" ", "  ", "   ", "\t"])
                 add(rng.choice(["AddrGroup", "addrgroups"]), "\n".join([hdr] + [ind + m for m in mems]), dict(base, indent=ind), vm)
-    return jobs
+    # histories: the line of a live object re-assigned (to the text of another job of the same class and settings, or to nothing)
+    by = {}
+    for j in jobs:
+        if j["cls"] in ("Port", "Option", "Ace", "Remark", "Wildcard", "Address", "AddressAg", "Protocol"):
+            by.setdefault((j["cls"], json.dumps(j["kw"], sort_keys=True)), []).append(j)
+    extra = []
+    for key, js in by.items():
+        for j in js:
+            if len(js) > 1 and rng.random() < 0.2:
+                other = rng.choice(js)
+                extra.append(dict(j, tid=t, first=other["text"], extras=False)); t += 1
+            if j["cls"] == "Option" and rng.random() < 0.3:
+                extra.append(dict(j, tid=t, text="", first=j["text"], extras=False)); t += 1
+    return jobs + extra
 
 
 def object_level(rng, n, own_prefix):
